@@ -1,31 +1,38 @@
 """C07 — prolog/epilog preserve callee-saved state and keep frame areas disjoint (DESIGN.md section 6, C07)."""
+import re
+
 import vlib
 
 PID = "C07"
+UFF_SHAPES = {}
 MANIFEST = {
-    "technique": "Lean 4 theorems over a hand model of FuncFrame::init/finalize and x86/AArch64 emit_prolog/emit_epilog executed on an "
-                 "abstract stack machine (all frames, all entry stacks, all confined bodies; induction over push/pop and save-slot lists) "
-                 "+ C++/Lean correspondence + Lean monitor run on the real prolog/epilog",
-    "text": "Lean proves (Props/C07.lean, 11 theorems, no sorry, axioms propext/Classical.choice/Quot.sound): finalize_layout - for every frame "
-            "handed to finalize (power-of-two alignments, no 32-bit wrap) call area, local area, extra-register save area, DA slot, push/pop "
-            "area and return address are ordered, disjoint and aligned as reported; x86_prolog_body_epilog - for every x86-32/x86-64 frame of "
-            "every built-in convention (x86In_init, x86_wf_of_finalize), every entry state the convention allows and EVERY body confined to the "
-            "declared areas, prolog;body;epilog on the stack machine returns to the caller's return address with sp = entry + W + callee "
-            "cleanup and every callee-saved GP/vector/mask/mm register restored, the body sees the promised sp alignment and stack arguments "
-            "at the reported offsets (FP / no FP / dynamic alignment with DA slot or FP / SA register / SSE-AVX save modes / callee-pops); "
-            "a64_prolog_body_epilog_partial - the same on AArch64 (stp/ldp pairs, pre/post index, FP/LR, 8- and 16-byte vector saves) for "
-            "frames without dynamic alignment or SA register, which is the open finding proved false at its witness (a64_dynalign_witness). "
-            "The model is tied to the real FuncFrame and emit_prolog/emit_epilog (Builder node lists) by running both on the same seeded "
-            "frames; the Lean monitor (same predicates as the theorems) executes the *implementation's* prolog/epilog around the most hostile "
-            "admissible body (junkBody_ok) at every entry-stack residue mod 128 and judges every frame.",
+    "technique": "Lean 4 theorems over a hand model of FuncFrame::init/setters/finalize, FuncArgsAssignment::update_func_frame (frame effect), "
+                 "x86/AArch64 emit_prolog/emit_epilog executed on an abstract stack machine, and RAStackAllocator/update_stack_frame "
+                 "(all frames reachable through the public API, all entry stacks, all confined bodies; induction over API-call sequences, "
+                 "push/pop lists, save-slot lists, stack-slot lists) + C++/Lean correspondence + Lean monitors run on the real output",
+    "text": "Lean proves (Props/C07.lean, C07Api.lean, C07RA.lean; no sorry; axioms propext/Classical.choice/Quot.sound): finalize_layout - for "
+            "every frame handed to finalize the reported areas are ordered, disjoint, aligned; x86_prolog_body_epilog(_api) - for every x86-32/"
+            "x86-64 frame reachable through the public API (any built-in convention, optionally with user-set preserved masks, init, then ANY "
+            "sequence of set_/update_ size and alignment calls, attribute changes incl. a stale kAlignedVecSR, dirty-mask changes, SA register, "
+            "update_func_frame; argument validity = power-of-two alignments <= 64, sizes <= 256 MiB, real GP register), every entry state and "
+            "EVERY confined body: prolog;body;epilog returns to the caller's return address with the required sp and every callee-saved "
+            "GP/vector/mask/mm register restored, promised alignment and stack-argument offsets inside the body; "
+            "a64_prolog_body_epilog(_api)_partial - the same on AArch64 incl. x29 as SA register with a preserved frame pointer, excluding "
+            "exactly the open finding (dynamic alignment / other SA registers; proved false at its witness); ra_slots_layout + ra_handover - "
+            "for every list of stack slots in every order the allocator's slots are aligned, pairwise disjoint, inside [0, stack_size), and after "
+            "update_stack_frame inside the finalized frame's local area. Tie: the real CallConv/FuncFrame/update_func_frame/emit_prolog/"
+            "emit_epilog/RAStackAllocator run on the same seeded lines as the model (frames, API-call sequences, a sweep over every CallConvId x "
+            "architecture x platform, slot lists); the Lean monitors (same predicates as the theorems) execute the implementation's "
+            "prolog/epilog around the most hostile admissible body at every entry-stack residue mod 128 and judge every frame and slot layout.",
     "note": "Trusted: Lean kernel; Spec/StackMachine.lean + Spec/FrameSpec.lean as the meaning of the instructions and of the property; the "
-            "harness/driver diff. Modelled: CallConv members read by FuncFrame::init, FuncFrame::init/setters/finalize, x86 and a64 "
-            "emit_prolog/emit_epilog. Not modelled: rapass.cpp/rastack.cpp hand-over (covered by C05's validated programs only), encodability of the "
-            "emitted instructions (C01/C02); update_* setters and user overrides of preserved masks are covered by correspondence+monitor only. "
-            "AArch64 dynamic alignment / SA register is an open finding (C07-a64-dynalign). The model follows fixes/C07-1..4.patch; until they are "
-            "applied the check reports those four classes on /repo with concrete replays.",
+            "harness/driver diff. update_func_frame is modelled by its effect on the frame (dirty bits added, SA register selected); the real "
+            "call is executed by the harness and its observed effect is checked against that shape and replayed by the model. The sort of "
+            "calculate_stack_frame is not transcribed (theorems hold for every order; the model places in the implementation's order). "
+            "BaseRAPass::update_stack_frame itself is not driven (composition of tied pieces; C05 validates compiled programs). Not covered: "
+            "instruction encodability (C01/C02). AArch64 dynamic alignment / foreign SA register is an open finding (C07-a64-dynalign). "
+            "The model follows fixes/C07-1..7.patch; until C07-5..7 are applied the check reports those classes on /repo with concrete replays.",
 }
-MODS = ["AsmjitVerif.Props.C07"]
+MODS = ["AsmjitVerif.Props.C07", "AsmjitVerif.Props.C07Api", "AsmjitVerif.Props.C07RA"]
 
 ARCHN = {0: "x86", 1: "x64", 2: "a64"}
 CCS = {0: [0, 1, 2, 3, 4, 5, 6, 7, 16, 17, 18], 1: [0, 1, 2, 3, 4, 5, 6, 7, 16, 17, 18, 32, 33], 2: [0, 1, 3, 7, 16, 17, 18, 32, 33]}
@@ -33,12 +40,17 @@ BAD_CCS = {0: [8, 30, 32, 33], 1: [8, 30, 31], 2: []}
 ATTR_BITS = [0x10, 0x20, 0x80, 0x10000, 0x20000, 0x40000, 0x80000, 0x100000, 0x1]
 # witness of the open finding C07-a64-dynalign (DESIGN.md section 7, #12)
 WITNESS_A64_DA = "frame 2 0 0 0 0 80000 100 0 0 - 0 100 64 0 0 255"
+WITNESS_A64_SA = "frame 2 16 0 0 0 0 0 0 0 - 0 8 8 8 16 15"
 KNOWN_KEY_A64_DA = "a64-no-dynalign-no-sa-reg"
 CORPUS = [
     WITNESS_A64_DA,
+    WITNESS_A64_SA,
     "frame 0 1 0 12 0 c8 0 0 0 - 0 40 8 0 0 255",          # x86-32 alignment 8 (fixes/C07-1)
     "frame 2 16 0 0 0 30 f0 0 0 - 0 100 16 0 0 255",       # a64 light-call 16-byte vector saves (fixes/C07-2)
     "frame 1 16 0 0 0 0 0 ff 0 0,0,ff,0,8,16,8,8,8,16,8,8 0 0 0 0 0 255",   # x86 mask saves (fixes/C07-3)
+    "seq 1 0 0 0 f008 0 0 0 f008,0,0,0 aat:10,sls:40,sla:16",   # custom convention without rbp + preserved FP (fixes/C07-5)
+    "seq 0 0 0 0 0 ff 0 0 e8,ff,0,0 aat:40,sls:8,sla:4",        # stale kAlignedVecSR on a 4-aligned stack (fixes/C07-6)
+    "seq 2 0 0 0 180000 0 0 0 - aat:10,sls:40,ssa:29",          # a64: stack arguments through the preserved x29 (fixes/C07-7)
     "frame 1 0 0 0 0 f008 0 0 0 - 0 40 8 0 0 255",
     "frame 1 0 1 0 10 f0c8 ffc0 0 0 - 0 100 32 32 16 255",
     "frame 1 0 0 0 0 f008 0 0 0 - 0 40 64 0 0 255",
@@ -115,6 +127,125 @@ def gen_op(rng, tier, wild=False):
                                                                     ovr, upd, lsz, lal, csz, cal, sareg)
 
 
+GPREGS = {0: [0, 1, 2, 3, 5, 6, 7], 1: [0, 1, 2, 3, 5, 6, 7, 8, 9, 12, 15], 2: list(range(0, 29))}
+
+
+def gen_seq(rng):
+    """init (optionally on a convention with user-set preserved masks) followed by a random sequence of public-API calls."""
+    arch = rng.choice((0, 0, 1, 1, 1, 2, 2))
+    cc = rng.choice(CCS[arch])
+    win = rng.randrange(2)
+    arg_stack = rng.choice((0, 0, 4, 8, 16, 40))
+    used = [pick_mask(rng, arch, g) for g in range(4)]
+    pm = "-"
+    if rng.random() < 0.35:
+        if arch == 2:
+            p = [rng.getrandbits(31) | (1 << 30), rng.getrandbits(32), 0, 0]
+        else:
+            gpbits = 8 if arch == 0 else 16
+            p = [rng.getrandbits(gpbits), rng.getrandbits(8 if arch == 0 else 32), rng.getrandbits(8), rng.getrandbits(8)]
+        pm = ",".join("%x" % x for x in p)
+    ops = []
+    for _ in range(rng.randrange(0, 10)):
+        k = rng.choice(("sls", "sla", "scs", "sca", "uls", "ula", "ucs", "uca", "aat", "aat", "cat", "sd", "ad", "sad", "ssa", "rsa", "rrz",
+                        "uff", "uff"))
+        if k in ("sls", "uls"):
+            ops.append("%s:%d" % (k, rng.choice((0, 1, 8, 40, 100, 4096, 65536, rng.randrange(1 << 16)))))
+        elif k in ("scs", "ucs"):
+            ops.append("%s:%d" % (k, rng.choice((0, 8, 32, 40, rng.randrange(4096)))))
+        elif k in ("sla", "ula", "sca", "uca"):
+            ops.append("%s:%d" % (k, rng.choice((0, 1, 4, 8, 16, 16, 32, 64))))
+        elif k == "aat":
+            ops.append("aat:%x" % rng.choice((0x10, 0x10, 0x20, 0x40, 0x80, 0x10000, 0x40000, 0x80000, 0x100000, 0x1, 0x50)))
+        elif k == "cat":
+            ops.append("cat:%x" % rng.choice((0x10, 0x20, 0x40, 0x10000)))
+        elif k in ("sd", "ad"):
+            g = rng.randrange(4)
+            ops.append("%s:%d:%x" % (k, g, pick_mask(rng, arch, g)))
+        elif k == "ssa":
+            ops.append("ssa:%d" % rng.choice(GPREGS[arch]))
+        elif k == "uff":
+            ops.append("uff:%d:%x" % (rng.randrange(0, 11), rng.getrandbits(48)))
+        else:
+            ops.append(k)
+    return "seq %d %d %d %d %x %x %x %x %s %s" % (arch, cc, win, arg_stack, used[0], used[1], used[2], used[3], pm, ",".join(ops) or "-")
+
+
+def gen_ras(rng, wild=False):
+    """slots for RAStackAllocator: size:alignment:flags:use_count"""
+    n = rng.choice((0, 1, 2, 3, 5, 8, 14))
+    out = []
+    for _ in range(n):
+        size = rng.choice((1, 2, 4, 4, 8, 8, 16, 32, 64, rng.randrange(1, 200), 4096))
+        align = rng.choice((1, 2, 4, 8, 16, 32, 64)) if rng.random() < 0.4 else min(64, 1 << (size.bit_length() - 1))
+        flags = (1 if rng.random() < 0.7 else 0) | (2 if rng.random() < 0.1 else 0)
+        if wild and rng.random() < 0.2:
+            align = rng.choice((0, 3, 12, 128))
+        out.append("%d:%d:%d:%d" % (size, align, flags, rng.choice((0, 1, 2, 5, 20, 1000))))
+    return "ras " + (",".join(out) or "-")
+
+
+def run_ras(res, h, rng, n):
+    """RAStackAllocator: model placement in the implementation's sort order + the slot-layout monitor."""
+    ops = ["ras 4:4:1:3,16:16:1:1,8:8:1:10,1:1:1:2,32:32:0:0,4:4:3:1,2:2:1:7,100:4:0:0"]
+    ops += [gen_ras(rng) for _ in range(n)] + [gen_ras(rng, wild=True) for _ in range(n // 5)]
+    impl, rc, err = vlib.run_lines([str(h)], ops)
+    if rc != 0 or len(impl) != len(ops):
+        res.violation("harness aborted on RAStackAllocator ops rc=%s: %s" % (rc, err[-1200:]), {"ops": ops[:20], "stderr": err[-3000:]}, True,
+                      key="harness-abort")
+        return
+    m1, m2, idx = [], [], []
+    for i, (o, a) in enumerate(zip(ops, impl)):
+        if not a.startswith("ok "):
+            continue
+        w = a.split()
+        m1.append("rasm %s | %s" % (o[4:], " ".join(t.split(":")[0] for t in w[3:]) or "-"))
+        m2.append("rasmon %s | %s" % (o[4:], " ".join(w[1:])))
+        idx.append(i)
+    o1, r1, _ = vlib.run_model(PID, m1)
+    o2, r2, _ = vlib.run_model(PID, m2)
+    if len(o1) != len(idx) or len(o2) != len(idx):
+        res.violation("driver protocol failure on RAStackAllocator ops", {}, False, key="protocol")
+        return
+    asc = 0
+    for k, i in enumerate(idx):
+        ws = [int(t.split(":")[1]) for t in impl[i].split()[3:]]
+        asc += ws == sorted(ws)
+        judgeable = all(int(t.split(":")[1]) in (1, 2, 4, 8, 16, 32, 64) and int(t.split(":")[0]) > 0 for t in ops[i][4:].split(",")) if ops[i] != "ras -" else True
+        if o2[k] != "good" and judgeable:
+            res.violation("RAStackAllocator slot layout violates C07 (hand-over) on %r: monitor says %s; implementation answered %s"
+                          % (ops[i], o2[k], impl[i][:500]), {"ops": [ops[i]], "monitor": o2[k]}, True, key="rastack:" + o2[k].split()[1])
+            break
+        if o1[k] != impl[i]:
+            res.violation("correspondence RAStack model/implementation differs at %r: impl=%s model=%s" % (ops[i], impl[i][:400], o1[k][:400]),
+                          {"ops": [ops[i]], "impl": impl[i], "model": o1[k], "unchecked": "Model/RAStack.lean ~ rastack.cpp"}, False, key="corr-rastack")
+            break
+    res.coverage["rastack"] = {"ops": len(ops), "judged": len(idx), "sorted_ascending_by_weight": asc,
+                               "note": "the comparator of step 2 sorts ascending although the comments say descending (layout quality only)"}
+    res.coverage["evaluations"] += len(ops)
+
+
+def sweep_ops(tier):
+    """Every CallConvId value (valid or not) x every architecture x both platforms x a fixed battery of frames."""
+    out = []
+    full = tier != "quick"
+    masks = ("0", "ffffffff", "hint") if full else ("hint",)
+    attrs = (0, 0x10, 0x20, 0x30) if full else (0, 0x30)
+    sizes = ((0, 0), (8, 8), (40, 16), (100, 32), (4096, 64)) if full else ((40, 16), (100, 32))
+    calls = ((0, 0), (32, 16)) if full else ((32, 16),)
+    for arch in (0, 1, 2):
+        for cc in list(range(0, 36)) + [255]:
+            for win in (0, 1):
+                for mk in masks:
+                    u = [0xFFFFFFFF if mk == "ffffffff" else 0 if mk == "0" else PRESERVED_HINT[arch][g] for g in range(4)]
+                    for at in attrs:
+                        for lsz, lal in sizes:
+                            for csz, cal in calls:
+                                out.append("frame %d %d %d %d %x %x %x %x %x - 0 %d %d %d %d 255" % (arch, cc, win, 8, at, u[0], u[1], u[2], u[3],
+                                                                                                 lsz, lal, csz, cal))
+    return out
+
+
 def is_pow2_or_zero(n):
     return n & (n - 1) == 0
 
@@ -122,6 +253,20 @@ def is_pow2_or_zero(n):
 def monitorable(op):
     """Frames inside the property's quantifier: power-of-two alignments <= 64, sizes that do not wrap 32-bit arithmetic."""
     w = op.split()
+    if w[0] == "seq":
+        arch = int(w[1])
+        if w[9] != "-":
+            p = [int(x, 16) for x in w[9].split(",")]
+            if arch == 2 and not (p[0] >> 30) & 1:
+                return False
+        if w[10] != "-":
+            for o in w[10].split(","):
+                a = o.split(":")
+                if a[0] in ("sla", "ula", "sca", "uca") and not (is_pow2_or_zero(int(a[1])) and int(a[1]) <= 64):
+                    return False
+                if a[0] in ("sls", "uls", "scs", "ucs") and int(a[1]) >= (1 << 24):
+                    return False
+        return int(w[4]) < 65536
     lsz, lal, csz, cal = int(w[12]), int(w[13]), int(w[14]), int(w[15])
     return is_pow2_or_zero(lal) and is_pow2_or_zero(cal) and lal <= 64 and cal <= 64 and lsz < (1 << 24) and csz < (1 << 24) and int(w[4]) < 65536
 
@@ -132,7 +277,8 @@ def known_key(op, impl_line, reason):
     if arch == 2 and impl_line.startswith("ok "):
         f = impl_line[3:].split(" | ")[0].split()
         min_dyn, final = int(f[7]), int(f[10])
-        if final >= min_dyn or int(f[3]) != int(f[2]):
+        fp_sa = int(f[3]) == 29 and (int(f[1]) & 0x10)        # the preserved frame pointer as SA register is supported (C07-7)
+        if final >= min_dyn or (int(f[3]) != int(f[2]) and not fp_sa):
             return KNOWN_KEY_A64_DA
     return "frame:%s:%s" % (reason.split()[0] if reason else "?", ARCHN[arch])
 
@@ -142,7 +288,20 @@ def judge(h, ops):
     impl, rc, err = vlib.run_lines([str(h)], ops)
     if rc != 0 or len(impl) != len(ops):
         return None, None, None, (rc, err)
-    model, rc2, err2 = vlib.run_model(PID, ops)
+    # the real update_func_frame calls report what they did to the frame; the model replays exactly that
+    mops = list(ops)
+    for i, (o, r) in enumerate(zip(ops, impl)):
+        if " uff " in r:
+            parts = r.split(" uff ")
+            impl[i] = parts[0]
+            obs = iter(parts[1:])
+            UFF_SHAPES[i] = [x.split() for x in parts[1:]]
+
+            def rep(m, obs=obs):
+                t = next(obs).split()
+                return "uffr:%s:%s:%s:%s:%s:%d" % (t[0], t[1], t[2], t[3], t[4], 1 if t[5] == "Ok" else 0)
+            mops[i] = re.sub(r"uff:\d+:[0-9a-f]+", rep, o)
+    model, rc2, err2 = vlib.run_model(PID, mops)
     if rc2 != 0 or len(model) != len(ops):
         return impl, None, None, (rc2, err2)
     idx = [i for i, (o, r) in enumerate(zip(ops, impl)) if r.startswith("ok ") and monitorable(o)]
@@ -161,10 +320,21 @@ def shrink(h, op, reason_head):
         impl, rc, _ = vlib.run_lines([str(h)], [cand])
         if rc != 0 or not impl or not impl[0].startswith("ok ") or not monitorable(cand):
             return False
-        m, _, _ = vlib.run_model(PID, ["mon " + impl[0][3:]])
+        m, _, _ = vlib.run_model(PID, ["mon " + impl[0][3:].split(" uff ")[0]])
         return bool(m) and m[0].startswith("BAD " + reason_head)
 
     w = op.split()
+    if w[0] == "seq":
+        if w[10] != "-":
+            keep = vlib.ddmin(w[10].split(","), lambda c: fails(" ".join(w[:10] + [",".join(c)])), max_tests=60)
+            if fails(" ".join(w[:10] + [",".join(keep)])):
+                w[10] = ",".join(keep)
+        for i, simple in ((9, "-"), (4, "0"), (5, "0"), (6, "0"), (7, "0"), (8, "0")):
+            c = list(w)
+            c[i] = simple
+            if fails(" ".join(c)):
+                w = c
+        return " ".join(w)
     for _ in range(2):
         for i in (5, 6, 7, 8, 9):           # attrs and used masks: drop bits
             v = int(w[i], 16)
@@ -212,6 +382,10 @@ def run(res):
     ops = list(CORPUS)
     ops += [gen_op(rng, res.tier) for _ in range(n)]
     ops += [gen_op(rng, res.tier, wild=True) for _ in range(n // 4)]
+    ops += [gen_seq(rng) for _ in range(n // 2)]
+    sweep = sweep_ops(res.tier)
+    ops += sweep
+    UFF_SHAPES.clear()
     impl, model, mon, fail = judge(h, ops)
     if fail is not None:
         rc, err = fail
@@ -227,13 +401,30 @@ def run(res):
             res.violation("driver/harness protocol failure rc=%s %s" % (rc, err[-500:]), {}, found_input=False, key="protocol")
         return
 
+    # update_func_frame may only add dirty registers and select a real GP register (never sp) as SA register
+    for i, shapes in UFF_SHAPES.items():
+        arch = int(ops[i].split()[1])
+        for t in shapes:
+            why = None
+            if t[6] != "1":
+                why = "changed a field other than dirty masks / SA register"
+            elif len(t) > 7:
+                why = t[7]
+            elif t[4] != "-" and int(t[4]) >= (32 if arch == 2 else 16):
+                why = "selected register %s as SA register" % t[4]
+            if why and mon[i] is None:
+                mon[i] = "BAD update_func_frame " + why.replace(" ", "-")
     bad = [(i, mon[i]) for i in range(len(ops)) if mon[i] is not None and mon[i].startswith("BAD")]
     diffs = [i for i in range(len(ops)) if impl[i] != model[i]]
     judged = sum(1 for m in mon if m is not None)
     kinds = {}
     for o, r, m in zip(ops, impl, mon):
         w = o.split()
-        k = ARCHN[int(w[1])] + ":" + (r.split()[0] if not r.startswith("ok") else ("ok" if " | !" not in r else "emit-refused"))
+        k = ARCHN[int(w[1])] + ":" + w[0] + ":" + (r.split()[0] if not r.startswith("ok") else ("ok" if " | !" not in r else "emit-refused"))
+        if w[0] == "seq" and w[10] != "-":
+            for o2 in w[10].split(","):
+                k3 = "apiop:" + o2.split(":")[0]
+                kinds[k3] = kinds.get(k3, 0) + 1
         kinds[k] = kinds.get(k, 0) + 1
         if r.startswith("ok "):
             f = r[3:].split(" | ")[0].split()
@@ -260,11 +451,15 @@ def run(res):
                             "correspondence only; non-trivial = distinct op the real code accepts; every accepted frame inside the quantifier is "
                             "executed by the Lean monitor at every entry-stack residue mod 128")
     res.coverage["exhaustive"] = False
+    res.coverage["sweep"] = "%d frames: every CallConvId 0..35 and 255 x {x86, x64, a64} x {linux, windows} x fixed battery" % len(sweep)
+    res.coverage["update_func_frame_calls"] = sum(len(v) for v in UFF_SHAPES.values())
     res.coverage["input_distribution"] = kinds
     res.coverage["monitor_judged"] = judged
     res.coverage["traces_validated_against_impl"] = len(ops)
     res.add_samples([{"op": ops[i], "impl": impl[i][:600], "model_equal": impl[i] == model[i], "monitor": mon[i]}
                      for i in (0, 4, len(ops) // 3, len(ops) // 2, len(ops) - 1)])
+
+    run_ras(res, h, rng, 1500 if res.tier == "quick" else 30000)
 
     reported = set()
     for i, m in bad:
@@ -279,6 +474,8 @@ def run(res):
         res.violation("real prolog/epilog violates C07 on frame %r: monitor says %s (%d such frames in this run); implementation answered %s"
                       % (small, m, cnt, (si[0] if si else "?")[:700]),
                       {"ops": [small], "monitor": m, "original_op": ops[i]}, True, key=key)
+    # frames of the open finding's class do not hide a broken correspondence / obligation
+    bad = [(i, m) for i, m in bad if known_key(ops[i], impl[i], m[4:]) != KNOWN_KEY_A64_DA]
     if not bad and diffs:
         i = diffs[0]
         res.violation("correspondence model/implementation differs at %r: impl=%s model=%s (%d differing ops); the property predicate holds on "
@@ -295,7 +492,8 @@ def replay(data):
     ops = data["replay"].get("ops", [])
     h = vlib.build_harness("c07")
     impl, rc, err = vlib.run_lines([str(h)], ops)
-    mon, _, _ = vlib.run_model(PID, ["mon " + r[3:] if r.startswith("ok ") else "x" for r in impl])
+    mon, _, _ = vlib.run_model(PID, [("rasmon %s | %s" % (o[4:], r[3:]) if o.startswith("ras ") else "mon " + r[3:].split(" uff ")[0])
+                                     if r.startswith("ok ") else "x" for o, r in zip(ops, impl)])
     for o, r, m in zip(ops, impl, mon):
         print(o, "->", r, "->", m)
     return 0
